@@ -179,7 +179,7 @@ def run(ctx):
     def chk(case):
         check_case(case, ctx)
 
-    ctx.run_hypothesis(case_strategy(), chk, ctx.pick(12, 12), salt="main")
+    ctx.run_hypothesis(case_strategy(), chk, ctx.pick(9, 9), salt="main")
 
 
 def replay(ctx, case):
